@@ -132,6 +132,10 @@ func evaluateTaskOnPrePredicate(task *pod_info.PodInfo, k8sPredicates k8s_intern
 		nodes, status := predicate.PreFilter(task.Pod)
 		if status.IsSkip() {
 			skipPredicates.Add(task.UID, name)
+		} else if skipPredicates.ShouldSKip(task.UID, name) {
+			// the answer depends on the cluster state (e.g. pods placed earlier in this cycle):
+			// a Skip recorded by an earlier evaluation no longer holds
+			delete(skipPredicates[task.UID], name)
 		}
 
 		if status.AsError() != nil {
